@@ -600,6 +600,56 @@ def rule7_recentre(ctx, views):
 QUSERS = ['myth_queue_push', 'myth_queue_pop', 'myth_queue_take', 'myth_queue_put', 'myth_queue_trypass', 'myth_queue_peek']
 
 
+def rule13_victims(ctx, fl):
+    ctx.doc('C02.13', 'victim selection (myth_env_get_first_busy): the index computed from the random draw r in [0, n-1) and the thief\'s own '
+            'rank ranges over every other worker and never over the thief itself - evaluated exhaustively for n = 2..6 workers.  A worker '
+            'that no thief ever looks at keeps its queued threads to itself: with two workers a thread queued behind a busy worker is '
+            'never resumed although the other worker is idle')
+    v = ctx.view('myth_worker.c', roots=['myth_env_get_first_busy'], stops=('myth_random',), flavour=fl)
+    f = ctx.need_fn(v, 'myth_env_get_first_busy')
+    rnd = call_sites(f, 'myth_random')
+    nwl = [l for l in f.order if l.op == 'load' and isinstance(f.ap(l.ops[0]).root, dict) and f.ap(l.ops[0]).root.get('g') == 'g_attr' and l.ty == 'i32']
+    rkl = [l for l in f.order if l.op == 'load' and f.field(l) == 'myth_running_env.rank' and same_value(f, f.ap(l.ops[0]).root, 'a0')]
+    ok = len(rnd) == 1 and bool(nwl) and bool(rkl)
+    ctx.ob('C02.13', 'victim selection: one random draw, own rank and worker count read', ok, 'idx = myth_random(0, n - 1); idx += (idx >= e->rank)',
+           loc=f.loc)
+    if not ok:
+        return
+    idxs = []
+    for val, anchor in ret_cases(f, maxdepth=2):
+        if isinstance(val, dict):
+            continue
+        ap = f.ap(val)
+        st = [x for x in ap.steps if x[0] in ('p', 'i') and isinstance(x[1], str)]
+        if st:
+            idxs.append(st[-1][1])
+    ctx.ob('C02.13', 'victim selection: returns &g_envs[index]', len(idxs) == 1, 'one computed index', loc=f.loc)
+    if len(idxs) != 1:
+        return
+    bad, n_ev = [], 0
+    for n in range(2, 7):
+        env0 = dict((l.id, n) for l in nwl)
+        lo = lib.eval_expr(f, rnd[0].args[0], env0)
+        hi = lib.eval_expr(f, rnd[0].args[1], env0)
+        if lo is None or hi is None:
+            continue
+        for rank in range(n):
+            got = set()
+            for r in range(lo, hi):            # myth_random(min, max) draws from [min, max)
+                env = dict(env0)
+                env.update((l.id, rank) for l in rkl)
+                env[rnd[0].id] = r
+                x = lib.eval_expr(f, idxs[0], env)
+                n_ev += 1
+                got.add(x)
+            if got != set(range(n)) - {rank}:
+                bad.append((n, rank, sorted(got, key=str)))
+    ctx.ob('C02.13', 'victim selection: every other worker can be chosen, the thief itself never', n_ev >= 50 and not bad,
+           'the set of indices over all draws equals {0..n-1} minus the own rank', loc=f.loc,
+           detail='%d points; first mismatches (n, rank, reachable victims): %s' % (n_ev, bad[:3]))
+    ctx.floor('C02.13', 3)
+
+
 def rule10_wsapi(ctx, fl):
     ctx.doc('C02.10', 'custom work-stealing API forwarders: myth_wsapi_runqueue_push inserts its argument into the caller\'s run queue on '
             'every path, myth_wsapi_runqueue_pop returns what myth_queue_pop returned, myth_wsapi_runqueue_pass returns the result of '
@@ -646,6 +696,7 @@ def run(ctx):
         ctx.attempt(lib.native_forwarding, ctx, 'C02.11', fl, lambda n: n in ('myth_yield', 'myth_yield_ex', 'myth_sched_yield', 'myth_steal'), floor=3)
         ctx.attempt(rule9_init, ctx, fl)
         ctx.attempt(rule10_wsapi, ctx, fl)
+        ctx.attempt(rule13_victims, ctx, fl)
         stops = lib.SPIN_STOPS
         vn = ctx.view(NATIVE, roots=['myth_queue_push', 'myth_queue_pop', 'myth_queue_put', 'myth_queue_trypass',
                                      'myth_wsapi_runqueue_take', 'myth_wsapi_runqueue_peek'], stops=stops, flavour=fl)
@@ -674,6 +725,8 @@ WSQ = 'src/myth_wsqueue_func.h'
 NAT = 'src/myth_if_native.c'
 SCHED = 'src/myth_sched_func.h'
 MUTANTS = [
+    {'name': 'victim selection never picks the right-hand neighbour (seed4 C02/m1)', 'expect': 'C02.13',
+     'edits': [('src/myth_worker_func.h', "  idx += (idx >= e->rank);", "  idx += (idx > e->rank);")]},
     {'name': 'trypass refuses every queue that has room (sweep M0471, passes the suite)', 'expect': 'C02.3',
      'edits': [(WSQ, "  if (q->base == 0){\n    ret = 0;\n  }\n  else{\n    int b;", "  if (q->base != 0){\n    ret = 0;\n  }\n  else{\n    int b;")]},
     {'name': 'yield re-queues the yielder at the head (seed3 C02/m1)', 'expect': 'C02.12',
